@@ -21,7 +21,7 @@ from dask_expr._expr import (
     rows_source_key,
     same_rows_source,
 )
-from dask_expr._util import _convert_to_list
+from dask_expr._util import _labels_to_list
 
 
 class Concat(Expr):
@@ -240,7 +240,7 @@ class Concat(Expr):
             columns = determine_column_projection(self, parent, dependents)
             # an unnamed Series is labelled with its position among the unnamed
             # Series, dropping one of them would relabel the others: keep them all
-            columns = _convert_to_list(columns) + [None]
+            columns = _labels_to_list(columns) + [None]
             columns_frame = [
                 [col for col in get_columns_or_name(frame) if col in columns]
                 for frame in self._frames
@@ -284,7 +284,7 @@ class Concat(Expr):
             if result.ndim == 1 and result.name is None:
                 # the only frame left, as a column of self it is labelled 0
                 result = ToFrame(result)
-            if result.columns == _convert_to_list(parent.operand("columns")):
+            if result.columns == parent.columns:
                 if result.ndim == parent.ndim:
                     return result
                 elif result.ndim < parent.ndim:
